@@ -19,8 +19,10 @@ TECHNIQUE = ('model-based stateful testing over API call histories (generated op
              'interleavings under a deterministic settrace scheduler')
 RULE = ('(history) sequences of up to 40 operations over the public API: construct with '
         'defaults (64 classes, ContentHeader, Basic.Properties), construct with arguments, '
-        'marshal, unmarshal(valid), unmarshal(invalid -> exception), primitive encode / '
-        'decode, toggle the legacy switch, mutate a previously returned object (add a key '
+        'marshal, unmarshal(valid), unmarshal(invalid -> exception), refused encodes (one per '
+        'kind of exception the encoder uses: OverflowError, struct.error, ValueError, '
+        'UnicodeEncodeError, decimal signals, TypeError; bad body values and channels), '
+        'primitive encode / decode, toggle the legacy switch, mutate a previously returned object (add a key '
         'to its table, append to a decoded list, set a property), marshal a long-lived '
         '(possibly mutated) object again, encode two equal-comparing but distinguishable '
         'values one after the other (True/1, 0.0/-0.0, Decimal 1.0/1.00, the two datetimes '
@@ -321,6 +323,37 @@ def twin_ops():
     return st.tuples(st.just('twin'), fns, pairs)
 
 
+def refused_encode_ops():
+    """encodes that the library refuses, one per kind of exception it uses; the history
+    oracle then watches what the *following* calls do"""
+    bad_frames = st.one_of(
+        st.builds(lambda v: {'kind': 'body', 'ch': 1, 'data': v},
+                  st.sampled_from(['text', [1, 2], ('a',), 5])),
+        st.builds(lambda t: {'kind': 'header', 'ch': 1, 'body_size': 1,
+                             'props': {'headers': t}}, S.bad_tables()),
+        st.builds(lambda t: {'kind': 'method', 'cls': 'Queue.Declare', 'ch': 1,
+                             'args': {'ticket': 0, 'queue': 'q', 'passive': False,
+                                      'durable': False, 'exclusive': False,
+                                      'auto_delete': False, 'nowait': False,
+                                      'arguments': t}}, S.bad_tables()),
+        st.builds(lambda v: {'kind': 'method', 'cls': 'Basic.Publish', 'ch': 1,
+                             'args': {'ticket': 0, 'exchange': '', 'routing_key': v,
+                                      'mandatory': False, 'immediate': False}},
+                  st.sampled_from([5, None, b'x', '\ud800', 'r' * 300])),
+        st.builds(lambda ch: {'kind': 'body', 'ch': ch, 'data': b'x'},
+                  st.sampled_from([-1, 65536, 1.5, None])))
+    return st.one_of(
+        st.tuples(st.just('prim_encode'), st.just('field_table'), S.bad_tables()),
+        st.tuples(st.just('prim_encode'), st.just('encode_table_value'),
+                  S.bad_leaves()),
+        st.tuples(st.just('prim_encode'), st.sampled_from(['decimal', 'timestamp',
+                                                           'floating_point',
+                                                           'short_string',
+                                                           'long_long_int']),
+                  S.bad_leaves()),
+        st.tuples(st.just('marshal'), bad_frames))
+
+
 def prim_decode_ops():
     def render(v):
         out = wire.Out()
@@ -360,7 +393,7 @@ def call_ops():
         st.tuples(st.just('unmarshal_valid'), wire.wire_frames()),
         st.tuples(st.just('unmarshal_valid'), wire.wire_frames()),
         st.tuples(st.just('unmarshal_invalid'), invalid_bytes()),
-        prim_encode_ops(), prim_decode_ops())
+        prim_encode_ops(), prim_decode_ops(), refused_encode_ops())
 
 
 def history_cases(tier):
